@@ -616,6 +616,141 @@ func factsArchive(p *pkg) {
 	emit("")
 }
 
+// ---------------------------------------------------------------- stream producers (C17)
+
+// callsMatching reports whether stmt is an expression/if/assign statement whose text contains one of the markers.
+func stmtMentions(fset *token.FileSet, st ast.Stmt, markers []string) bool {
+	txt := exprString(fset, st)
+	for _, m := range markers {
+		if strings.Contains(txt, m) {
+			return true
+		}
+	}
+	return false
+}
+
+// everyReturnAfterClose: in the function literal started with `go`, every `return` statement is
+// directly preceded (same block) by a statement mentioning one of the close markers, and the body's
+// last statement mentions one too (unless it is a return).
+func everyReturnAfterClose(fset *token.FileSet, body *ast.BlockStmt, markers []string) bool {
+	ok := true
+	var check func(b *ast.BlockStmt)
+	check = func(b *ast.BlockStmt) {
+		for i, st := range b.List {
+			if _, isRet := st.(*ast.ReturnStmt); isRet {
+				if i == 0 || !stmtMentions(fset, b.List[i-1], markers) {
+					ok = false
+				}
+			}
+		}
+	}
+	ast.Inspect(body, func(n ast.Node) bool {
+		if _, isLit := n.(*ast.FuncLit); isLit && n != ast.Node(nil) {
+			// nested function literals (modify helpers, deferred closures) have their own returns
+			if n.(*ast.FuncLit).Body != body {
+				return false
+			}
+		}
+		if b, isB := n.(*ast.BlockStmt); isB {
+			check(b)
+		}
+		return true
+	})
+	if len(body.List) == 0 {
+		return false
+	}
+	last := body.List[len(body.List)-1]
+	if _, isRet := last.(*ast.ReturnStmt); !isRet && !stmtMentions(fset, last, markers) {
+		// a `for { ... }` loop that can only be left through return is fine
+		if _, isFor := last.(*ast.ForStmt); !isFor {
+			ok = false
+		}
+	}
+	return ok
+}
+
+func goroutineBody(fd *ast.FuncDecl) *ast.BlockStmt {
+	var body *ast.BlockStmt
+	ast.Inspect(fd.Body, func(n ast.Node) bool {
+		if gs, ok := n.(*ast.GoStmt); ok && body == nil {
+			if fl, ok := gs.Call.Fun.(*ast.FuncLit); ok {
+				body = fl.Body
+			}
+		}
+		return true
+	})
+	return body
+}
+
+func factsStreams(repo string, arch *pkg) {
+	emit("-- stream producers: every exit path closes the pipe")
+	// Tarballer.Do: first statement after ta setup is a defer of a func literal that closes all three without returning early
+	doOK := false
+	if fd, fset := findFunc(arch, "Do", "Tarballer"); fd != nil {
+		for _, st := range fd.Body.List {
+			ds, ok := st.(*ast.DeferStmt)
+			if !ok {
+				continue
+			}
+			fl, ok := ds.Call.Fun.(*ast.FuncLit)
+			if !ok {
+				break
+			}
+			txt := exprString(fset, fl.Body)
+			rets := 0
+			ast.Inspect(fl.Body, func(n ast.Node) bool {
+				if _, ok := n.(*ast.ReturnStmt); ok {
+					rets++
+				}
+				return true
+			})
+			doOK = rets == 0 && strings.Contains(txt, "ta.TarWriter.Close()") && strings.Contains(txt, "t.compressWriter.Close()") && strings.Contains(txt, "t.pipeWriter.Close()")
+			break
+		}
+	}
+	emit("/-- Tarballer.Do defers one closure that closes the tar writer, the compressor and the pipe, with no early return -/")
+	emit("def doClosesAll : Bool := %s", boolLean(doOK))
+	check := func(name, fn string, markers []string) {
+		okv := false
+		if fd, fset := findFunc(arch, fn, ""); fd != nil {
+			if b := goroutineBody(fd); b != nil {
+				okv = everyReturnAfterClose(fset, b, markers)
+			}
+		}
+		emit("def %s : Bool := %s", name, boolLean(okv))
+	}
+	emit("/-- in the goroutine of each producer every `return` directly follows a Close/CloseWithError of the pipe writer, and so does the end of the body -/")
+	check("exportClosesAlways", "ExportChanges", []string{"writer.Close()"})
+	check("rebaseClosesAlways", "RebaseArchiveEntries", []string{"w.Close()", "w.CloseWithError("})
+	check("replaceClosesAlways", "ReplaceFileTarWrapper", []string{"pipeWriter.Close()", "pipeWriter.CloseWithError("})
+	comp := loadPkg(filepath.Join(repo, "compression"))
+	cmdOK := false
+	if fd, fset := findFunc(comp, "cmdStream", ""); fd != nil {
+		if b := goroutineBody(fd); b != nil {
+			txt := exprString(fset, b)
+			cmdOK = strings.Contains(txt, "writer.CloseWithError(") && strings.Contains(txt, "writer.Close()") && strings.HasSuffix(strings.TrimSpace(strings.TrimSuffix(strings.TrimSpace(txt), "}")), "close(done)")
+		}
+	}
+	emit("/-- cmdStream's waiter closes the pipe with the helper's error or cleanly, then signals done -/")
+	emit("def cmdStreamClosesAlways : Bool := %s", boolLean(cmdOK))
+	// CopyFileWithTar: named result `err`, deferred collection of the producer's error
+	named := false
+	if fd, fset := findFunc(arch, "CopyFileWithTar", "Archiver"); fd != nil && fd.Type.Results != nil {
+		for _, f := range fd.Type.Results.List {
+			for _, n := range f.Names {
+				if n.Name == "err" {
+					named = true
+				}
+			}
+		}
+		txt := exprString(fset, fd.Body)
+		named = named && strings.Contains(txt, "er := <-errC; err == nil && er != nil") && strings.Contains(txt, "r.CloseWithError(err)") && strings.Contains(txt, "defer w.Close()")
+	}
+	emit("/-- CopyFileWithTar returns through a named result that the deferred read of errC can set; it closes both pipe ends on failure -/")
+	emit("def copyFileJoinsErrors : Bool := %s", boolLean(named))
+	emit("")
+}
+
 // ---------------------------------------------------------------- shared state
 
 func factsShared(repo string) {
